@@ -557,14 +557,15 @@ def check_synthesis(ctx, cirq, n):
         except ValueError as e:
             ctx.count('synth_rejected', 'sqrt_iswap:' + str(e)[:40])
         # four FSim gates
-        fs = rng.choice([cirq.FSimGate(theta=np.pi / 2, phi=np.pi / 6), cirq.FSimGate(theta=1.3, phi=0.4), cirq.ISWAP, cirq_google.SYC])
+        fs = rng.choice([cirq.FSimGate(theta=np.pi / 2, phi=np.pi / 6), cirq.FSimGate(theta=1.3, phi=0.4), cirq.ISWAP, cirq_google.SYC, cirq.ISwapPowGate(exponent=-1), cirq.ISwapPowGate(exponent=1, global_shift=0.3),
+                         cirq.ISwapPowGate(exponent=0.9, global_shift=-0.25)])
         try:
             c = cirq.decompose_two_qubit_interaction_into_four_fsim_gates(u, fsim_gate=fs, qubits=(q0, q1))
             ops = list(c.all_operations())
             got = lean_product(ctx, cirq, ops, [q0, q1])
             ctx.count('check', 'to_four_fsim')
-            if not phase_close(got, u, 1e-5) or count_2q(ops) > 4:
-                ctx.report_witness('synth:fsim', 'decompose_two_qubit_interaction_into_four_fsim_gates: wrong product or more than 4 FSim gates', dict(rep, impl_out=[[repr(o) for o in ops][:30], repr(fs), repr(np.round(got, 7).tolist())], spec_out=['<= 4 FSim, product = input']))
+            if not np.allclose(got, u, atol=1e-5) or count_2q(ops) > 4:   # (exact: the circuit carries an explicit global phase operation)
+                ctx.report_witness('synth:fsim' + (':global-shift' if phase_close(got, u, 1e-5) and count_2q(ops) <= 4 else ''), 'decompose_two_qubit_interaction_into_four_fsim_gates: wrong product or more than 4 FSim gates', dict(rep, impl_out=[[repr(o) for o in ops][:30], repr(fs), repr(np.round(got, 7).tolist())], spec_out=['<= 4 FSim, product = input']))
         except ValueError as e:
             ctx.count('synth_rejected', 'fsim:' + str(e)[:40])
         # Mølmer–Sørensen target
